@@ -2397,6 +2397,9 @@ int cif_value_autoinit_numb(cif_value_tp *numb, double val, double su, unsigned 
                 } /* else the formatted su overflowed, despite our checks.  The su_rule must be very large. */
 
                 restore_numeric_locale(locale);
+            } else {
+                /* the numeric locale could not be saved and switched (possibly for lack of memory) */
+                result_code = CIF_ERROR;
             }
 
             return result_code;
